@@ -9,7 +9,23 @@ import (
 	"pgregory.net/rapid"
 )
 
+// eagerEOFReaderAt is a conforming io.ReaderAt that reports io.EOF together with
+// a read that ends exactly at the end of the input (the contract allows both).
+type eagerEOFReaderAt struct{ b []byte }
+
+func (e eagerEOFReaderAt) ReadAt(p []byte, off int64) (int, error) {
+	if off < 0 || off > int64(len(e.b)) {
+		return 0, io.EOF
+	}
+	n := copy(p, e.b[off:])
+	if n < len(p) || off+int64(n) == int64(len(e.b)) {
+		return n, io.EOF
+	}
+	return n, nil
+}
+
 type ArCase struct {
+	EagerEOF bool       `json:"eagerEOF,omitempty"` // read through eagerEOFReaderAt instead of bytes.Reader
 	Members []ArMember `json:"members"`
 	Half    int        `json:"half"` // member read half-way before the iterator advances
 	Offs    []int      `json:"offs"` // ReadAt probe offsets (taken modulo the member size)
@@ -40,6 +56,7 @@ func genArCase(t *rapid.T) ArCase {
 		c.Half = rapid.IntRange(0, n-1).Draw(t, "half")
 	}
 	c.Offs = rapid.SliceOfN(rapid.IntRange(0, 9000), 1, 4).Draw(t, "offs")
+	c.EagerEOF = rapid.IntRange(0, 3).Draw(t, "eagerEOF") == 0
 	return c
 }
 
@@ -77,7 +94,7 @@ func expectEntry(e *deb.ArEntry, m ArMember, i int) error {
 
 var specC13 = Register(&Spec[ArCase]{
 	Prop: "C13", Name: "members",
-	Rule: "ar archives rendered by an independent writer from a member-list model: 0..8 members; names of 1..16 bytes over [A-Za-z0-9._+-] (16-byte class), optional GNU '/' terminator; mtime < 10^12, uid/gid < 10^6, mode up to 8 octal digits, each numeric column independently blank; data empty, 1 byte, odd, even, up to 8 KiB, or built from look-alike headers / the global magic / header terminators; one newline pad after odd sizes (also after the last member). Oracle: LoadAr + Next() return exactly the model sequence (Name, Timestamp, OwnerID, GroupID, FileMode, Size), io.ReadAll(Data) == data; a member read half-way before the iterator advances finishes with the right bytes; a second iterator opened on the same ReaderAt and advanced one step behind sees the same members; after exhaustion Next() returns io.EOF repeatedly and every earlier Data reader still yields its bytes after Seek(0,0) and via ReadAt at generated offsets. Non-trivial: >= 2 members, or a zero-length / odd-length / 16-byte-name member; distinct by archive.",
+	Rule: "ar archives rendered by an independent writer from a member-list model: 0..8 members; names of 1..16 bytes over [A-Za-z0-9._+-] (16-byte class), optional GNU '/' terminator; mtime < 10^12, uid/gid < 10^6, mode up to 8 octal digits, each numeric column independently blank; data empty, 1 byte, odd, even, up to 8 KiB, or built from look-alike headers / the global magic / header terminators; one newline pad after odd sizes (also after the last member); read through bytes.Reader or (1/4) through a conforming ReaderAt that returns io.EOF together with a read ending exactly at the end of the input. Oracle: LoadAr + Next() return exactly the model sequence (Name, Timestamp, OwnerID, GroupID, FileMode, Size), io.ReadAll(Data) == data; a member read half-way before the iterator advances finishes with the right bytes; a second iterator opened on the same ReaderAt and advanced one step behind sees the same members; after exhaustion Next() returns io.EOF repeatedly and every earlier Data reader still yields its bytes after Seek(0,0) and via ReadAt at generated offsets. Non-trivial: >= 2 members, or a zero-length / odd-length / 16-byte-name member; distinct by archive.",
 	Check: func(c ArCase, r *Recorder) error {
 		nt := len(c.Members) >= 2
 		cl := []string{}
@@ -114,7 +131,11 @@ var specC13 = Register(&Spec[ArCase]{
 			}
 			r.Sample(names)
 		}
-		shared := bytes.NewReader(raw)
+		var shared io.ReaderAt = bytes.NewReader(raw)
+		if c.EagerEOF {
+			shared = eagerEOFReaderAt{raw}
+			cl = append(cl, "eager-eof-readerat")
+		}
 		ar, err := deb.LoadAr(shared)
 		if err != nil {
 			return errf("LoadAr rejected a well-formed archive (%d members): %v", len(c.Members), err)
